@@ -24,6 +24,8 @@ attr max_pfn                ->  (nothing; LKCD: the whole stream is indexed)
 rdc <as> <addr> <len>       ->  > P1;P2;…   symbolic page results from the page of addr to the
                                              first failing page or the end of the range
 rle <dstlen> <hex|->        ->  > rle ok <hex|-> | > rle err | > rle OOB
+fault <off> <kind>          ->  > fault ok                 the next read of the LKCD descriptor at <off> fails once
+unfault                     ->  > fault fired|pending
 ```
 Symbolic page results: `nodata zero notimpl corrupt ioerr eof xlat oob`,
 `data:<fidx>:<off>:<size>:<method>`, `chunk:<off>`, `pieces:z<n>,f<off>+<n>,…`.
@@ -54,6 +56,8 @@ structure St where
   lkComp : Nat := 0
   lkKeyBits : Nat := 0
   lk : LkcdState := ⟨0, 0, [], 0⟩
+  bad : Option Nat := none
+  fired : Bool := false
   -- SADUMP
   regions : List Region := []
   exts : List Extent := []
@@ -135,15 +139,18 @@ def pageAt (s : St) (as addr : Nat) : St × String × Bool :=
     let (t, ok) := showLoc s.zx (ddLocate maps s.maxPfn s.ps (ddDesc s) pfn)
     (s, t, ok)
   | .lkcd =>
-    let (lk', r) := lkGet (lkDesc s) shift (lkKey s) 1000000 s.lk pfn
+    let (lk', r) : LkcdState × Option LkcdFind := match s.bad with
+      | none => let x := lkGet (lkDesc s) shift (lkKey s) 1000000 s.lk pfn; (x.1, some x.2)
+      | some b => lkGetF (lkDesc s) shift (lkKey s) b 1000000 s.lk pfn
     let s' := { s with lk := lk' }
     match r with
-    | .found off dp =>
+    | none => ({ s' with bad := none, fired := true }, "ioerr", false)     -- the transient failure
+    | some (.found off dp) =>
       let (t, ok) := showLoc false (lkLocate s.lkComp s.ps (2^18) off dp)
       (s', t, ok)
-    | .nodata => (s', "nodata", false)
-    | .dup => (s', "corrupt", false)
-    | .eof => (s', "eof", false)
+    | some .nodata => (s', "nodata", false)
+    | some .dup => (s', "corrupt", false)
+    | some .eof => (s', "eof", false)
   | .sadump =>
     let (t, ok) := showLoc s.zx (sadumpLocate s.regions s.exts s.maxPfn s.ps pfn)
     (s, t, ok)
@@ -213,15 +220,25 @@ partial def loop (h : IO.FS.Stream) (s : St) : IO Unit := do
   | ["attr", "max_pfn"] =>
     -- lkcd_max_pfn_revalidate: search for the impossible frame ~0 indexes the whole stream
     if s.fmt == .lkcd then
-      let r := if s.lk.lastOffset = s.lk.endOffset then (s.lk, LkcdFind.nodata)
-               else lkSearch (lkDesc s) (log2 s.ps) (lkKey s) (2^64 - 1) 1000000 s.lk
-      loop h { s with lk := r.1 }
+      if s.lk.lastOffset = s.lk.endOffset then loop h s
+      else match s.bad with
+        | none => loop h { s with lk := (lkSearch (lkDesc s) (log2 s.ps) (lkKey s) (2^64 - 1) 1000000 s.lk).1 }
+        | some b =>
+          let r := lkSearchF (lkDesc s) (log2 s.ps) (lkKey s) (2^64 - 1) b 1000000 s.lk
+          if r.2.isNone then loop h { s with lk := r.1, bad := none, fired := true }
+          else loop h { s with lk := r.1 }
     else loop h s
   | "attr" :: _ => loop h s
   | ["rdc", as, addr, len] =>
     let (s', l) := readPages s as.toNat! (len.toNat! + 1) addr.toNat! len.toNat! []
     IO.println ("> " ++ ";".intercalate l)
     loop h s'
+  | ["fault", off, _kind] =>
+    IO.println "> fault ok"
+    loop h { s with bad := some off.toNat!, fired := false }
+  | ["unfault"] =>
+    IO.println (if s.fired then "> fault fired" else "> fault pending")
+    loop h { s with bad := none, fired := false }
   | ["rle", dstlen, hex] =>
     IO.println (showRle (uncompressRle (if hex == "-" then [] else unhex hex.toList) dstlen.toNat!))
     loop h s
